@@ -306,7 +306,7 @@ class MQTTBaseProtocol(Protocol):
         self._cleanStart = None # session mode is not known until connect() is called
         self._pingReq       = PINGREQ() 
         self._pingReq.timer = None
-        self._pingReq.alarm = None
+        self._pingReq.alarms = []   # PINGRESP deadlines of the unanswered PINGREQs, oldest first
         self._pingReq.pdu   = self._pingReq.encode()    # reuses the same PDU over and over again
         self.onDisconnection = None # callback to be invoked
 
@@ -654,9 +654,8 @@ class MQTTBaseProtocol(Protocol):
         Handles PINGRESP packet from the server
         '''
         log.debug("<== {packet:7}", packet="PINGRESP")
-        if self._pingReq.alarm is not None:
-            self._pingReq.alarm.cancel()
-            self._pingReq.alarm = None
+        if self._pingReq.alarms:
+            self._pingReq.alarms.pop(0).cancel()
 
 
     # ---------------------------
@@ -722,11 +721,11 @@ class MQTTBaseProtocol(Protocol):
         '''
         def doPingError():
             log.warn("--- {packet:7} Timeout", packet="PINGREQ")
-            self._pingReq.alarm = None
+            self._pingReq.alarms = [a for a in self._pingReq.alarms if a.active()] # forget the one that fired
             self.transport.abortConnection()
         log.debug("==> {packet:7}", packet="PINGREQ")
         self.transport.write(self._pingReq.pdu)
-        self._pingReq.alarm = self.callLater(self._pingReq.keepalive, doPingError)
+        self._pingReq.alarms.append(self.callLater(self._pingReq.keepalive, doPingError))
 
     # ------------------------------------------------------------------------
 
@@ -753,9 +752,9 @@ class MQTTBaseProtocol(Protocol):
         if self._pingReq.timer:
             self._pingReq.timer.stop()
             self._pingReq.timer = None
-        if self._pingReq.alarm:
-            self._pingReq.alarm.cancel()
-            self._pingReq.alarm = None
+        for alarm in self._pingReq.alarms:
+            alarm.cancel()
+        self._pingReq.alarms = []
 
     # --------------
     # Helper methods
